@@ -310,6 +310,11 @@ def arg_forms(case, init, bounds):
     fm = case.get('forms') or {}
     fi, fb = fm.get('init', 'f64'), fm.get('bounds', 'f64')
     a = np.array(init, dtype=np.float64)
+    # a form must never change a value: int / f32 only when every initial value is exact in that type
+    # (generators that edit ns0 after the form was chosen would otherwise hand different numbers to code and model)
+    if (fi == 'int' and not np.array_equal(a.astype(np.int64).astype(np.float64), a)) or \
+       (fi == 'f32' and not np.array_equal(a.astype(np.float32).astype(np.float64), a)):
+        fi = 'list'
     if fi == 'list':
         i2 = [float(v) for v in a]
     elif fi == 'tuple':
@@ -2357,6 +2362,8 @@ def run(ctx):
     for _ in range(ctx.n(6, 60)):
         cs = gen_syn_case(rng)
         cs['ns0'] = cs['lo'] - 1.0 if rng.random() < 0.5 else cs['hi'] + 1.0
+        if cs.get('forms', {}).get('init') in ('int', 'f32'):
+            cs['forms']['init'] = 'list'
         cs['cls'] = 'syn:init-outside'
         cases.append(cs)
     # directed: degenerate bounds ns_min = ns_max (incl. the flag -2 reported for an upward step), scan whose inner
@@ -2374,6 +2381,8 @@ def run(ctx):
         cs = gen_scan_case(rng)
         if cs['obj']['shape'] != 'llh':
             cs['ns0'] = cs['lo'] - 1.0
+            if cs.get('forms', {}).get('init') in ('int', 'f32'):
+                cs['forms']['init'] = 'list'
             cs['cls'] = 'scan:init-outside'
             cases.append(cs)
     for bad in ('zero-step', 'negative-step', 'reversed-bounds', 'count-zero'):
